@@ -410,6 +410,56 @@ let cmd_c10 (x : sx) : sx =
         (if which = "pairwise" then with_pairwise_mutex N.eqb l is_mutex else with_transitive_mutex N.eqb l is_mutex)
   | _ -> failwith "c10 args"
 
+(* ---- port graphs: host-side model (Model/DomPG.v) ---- *)
+let sx_pghost (x : sx) : pghost =
+  match x with
+  | L [nodes; links] ->
+      { pg_nodes = sx_list (fun n -> match n with
+                             | A "-" -> None
+                             | L [i; o] -> Some (sx_n i, sx_n o)
+                             | _ -> failwith "pg node") nodes;
+        pg_links = sx_list (fun l -> match l with
+                             | L [a; oa; b; ib] -> (((sx_n a, sx_n oa), sx_n b), sx_n ib)
+                             | _ -> failwith "pg link") links }
+  | _ -> failwith "pghost"
+
+let sx_pgmap (x : sx) : (pgkey * n) list =
+  sx_list (fun e -> match e with L [k; v] -> (sx_pgkey k, sx_n v) | _ -> failwith "pgmap entry") x
+
+(* canonical form of a binding map: entries in key order; of a list of maps or matches: sorted by text *)
+let pgmap_sx (m : (pgkey * n) list) : sx =
+  let l = List.sort (fun (a, _) (b, _) -> match pgkey_cmp a b with Lt -> -1 | Eq -> 0 | Gt -> 1) m in
+  L (List.map (fun (k, v) -> L [pgkey_sx k; n_sx v]) l)
+let sorted_sx (l : sx list) : sx =
+  let strs = List.sort compare (List.map (fun x -> (show x, x)) l) in
+  L (List.map snd strs)
+
+let pg_fuel = nat_of_int 200000
+
+let cmd_pg (x : sx) : sx =
+  match x with
+  | L [A "pg-opts"; h; k; m] ->
+      res_sx (fun vs -> sorted_sx (List.map n_sx vs)) (pg_opts (sx_pghost h) (sx_pgkey k) (sx_pgmap m))
+  | L [A "pg-walk"; h; n; p] ->
+      L (List.map n_sx (walk_nodes (sx_pghost h) (sx_n n) (sx_port p)))
+  | L [A "pg-single"; cs; h] ->
+      res_sx (fun ms -> sorted_sx (List.map pgmap_sx ms)) (single pg_dom pg_fuel (sx_list sx_pgcons cs) (sx_pghost h))
+  | L [A "pg-naive"; css; h] ->
+      res_sx (fun ms -> sorted_sx (List.map (fun (p, m) -> L [n_sx p; pgmap_sx m]) ms))
+        (naive pg_dom pg_fuel (sx_list (fun cs -> sx_list sx_pgcons cs) css) (sx_pghost h))
+  | L [A "pg-run"; aut; hosts] ->
+      let a = sx_automaton sx_pgkey sx_pgcons aut in
+      L (List.map (fun h ->
+            res_sx (fun ms -> sorted_sx (List.map (fun (p, m) -> L [n_sx p; pgmap_sx m]) ms))
+              (run pg_dom pg_fuel a (sx_pghost h)))
+           (match hosts with L l -> l | _ -> failwith "hosts"))
+  | L [A "pg-cert"; aut; present] ->
+      let a = sx_automaton sx_pgkey sx_pgcons aut in
+      let pres = sx_list sx_bool present in
+      let ids = List.filteri (fun i _ -> List.nth pres i) (List.mapi (fun i _ -> n_of_int i) pres) in
+      L [A "wf"; bool_sx (wf_check pg_dom a (compute_rank a) ids)]
+  | _ -> failwith "pg args"
+
 let dispatch (x : sx) : sx =
   match x with
   | L (A "c12" :: args) -> cmd_c12 args
@@ -421,6 +471,7 @@ let dispatch (x : sx) : sx =
   | L (A "c15" :: args) -> cmd_c15 args
   | L (A ("tree" | "powerset" | "conditioned" | "with-children" | "pairwise" | "transitive") :: _) -> cmd_c10 x
   | L ((A ("aut-run" | "cvec" | "single" | "naive" | "cert" | "occ")) :: _ as args) -> cmd_engine args
+  | L (A ("pg-opts" | "pg-walk" | "pg-single" | "pg-naive" | "pg-run" | "pg-cert") :: _) -> cmd_pg x
   | _ -> failwith "unknown command"
 
 let () =
